@@ -216,6 +216,21 @@ def model(abs_path, mode):
     return "accept"
 
 
+_TP = {}
+
+
+def _typed_parser(mode_s):
+    from jsonargparse import ArgumentParser
+    from jsonargparse.typing import path_type
+
+    key = "".join(sorted(mode_s))
+    if key not in _TP:
+        p = ArgumentParser(exit_on_error=False)
+        p.add_argument("--p", type=path_type(mode_s))
+        _TP[key] = p
+    return _TP[key]
+
+
 def part_a(ctx, rng, capdrop):
     root = os.path.join(ctx.workdir, "fx")
     kinds = make_fixture(root)
@@ -276,6 +291,14 @@ def part_a(ctx, rng, capdrop):
                         ctx.count("unspecified_not_judged")
                         continue
                     ctx.count("st.accept" if acc else "st.reject")
+                    if spell != "cwd-kwarg" and given and not given.startswith("-") and ctx.counters["mon.path_mode_checks"] % 5 == 0:
+                        # the registered path type of this mode inside a parser decides like Path itself
+                        op = call(_typed_parser(mode_s).parse_args, [f"--p={given}"])
+                        ctx.count("mon.path_type_in_parser_checks")
+                        if (op.accepted or op.rejected) and op.accepted != acc:
+                            ctx.violation("path", f"path_type-in-parser-disagrees-with-Path/{'accepts' if op.accepted else 'rejects'}/{why_class(mode_s, kind)}", dict(w, parser_outcome=op.brief()))
+                        elif op.accepted and (str(op.value.p) != given or op.value.p.absolute != o.value.absolute):
+                            ctx.violation("path", "path_type-in-parser-resolves-differently", dict(w, parsed=repr(op.value.p), absolute=op.value.p.absolute))
                     if acc and expd == "reject":
                         ctx.violation("path", f"accepted-although-mode-not-satisfied/{why_class(mode_s, kind)}", w)
                     elif not acc and expd == "accept":
